@@ -271,7 +271,7 @@ impl Check for C19 {
     }
     fn default_runs(&self, tier: Tier) -> u64 {
         match tier {
-            Tier::Quick => 2400,
+            Tier::Quick => 4000,
             Tier::Thorough => 150000,
         }
     }
